@@ -203,6 +203,11 @@ def check(ctx: Ctx) -> None:
     _check_detector_table_coupling(ctx)
     from ..idioms import check_input_immutability, public_api
     check_input_immutability(ctx, 'C01.g', public_api(ctx.model, [FUND], include={'modulate', 'demodulate', 'setConstellation'}), floor=3)
+    from ..idioms import check_narrow_index_ranges
+    check_narrow_index_ranges(ctx, 'C01.i', [FUND, 'pyphysim/util/conversion.py'], floor=3)
+    for fn, (node, bits, kind) in getattr(ctx, '_narrow_casts', []):
+        ctx.error('cannot tell: %s casts `%s` to a %d-bit integer dtype; whether the values fit (bits, or indexes up to M-1) is not '
+                  'decidable from the expression (%s:%d)' % (fn.qualname, norm(node)[:60], bits, fn.path, node.lineno))
 
 
 def _check_detector_table_coupling(ctx: Ctx) -> None:
